@@ -5,6 +5,7 @@
 (*   Fam = "wmed"   weighted median / weighted MAD over all value x weight vectors of length 1..MaxLen          *)
 (*   Fam = "est"    the unweighted estimators + weighted sd, single calls and shift / scale pairs               *)
 (*   Fam = "bw"     biweight location / midvariance                                                             *)
+(*   Fam = "mode"   modal_location over all short vectors (with repeated values)                                    *)
 (*   Fam = "smooth" rolling median and mirror padding over all short integer signals x widths                   *)
 (*   Fam = "wing"   _width2wing over all lengths 1..MaxLen x widths                                             *)
 (* The input record is assembled in the Call step (TLC computes initial states in one thread).                  *)
@@ -56,6 +57,12 @@ Choose ==
        /\ v \in Seqs(Vals, MaxLen)
        /\ w = <<>>
        /\ par \in IF e = "bivar" THEN {NoPar, <<FALSE, TRUE, 0, 0>>} ELSE {NoPar}
+    \/ /\ Fam = "mode"             \* small multisets with repeats: multiplicity decides the density peak
+       /\ e = "mode"
+       /\ kind \in {"single", "shift"}
+       /\ v \in Seqs(Vals, MaxLen)
+       /\ w = <<>>
+       /\ par = NoPar
     \/ /\ Fam = "smooth"
        /\ e \in {"rollmed", "pad"}
        /\ kind = "single"
